@@ -29,7 +29,9 @@ type Instance struct {
 	Horizon  int
 	NoSpin   bool
 	NoFreeze bool
-	Scenario vs.Scenario
+	// RacePoints: race-directed preemption (vs.Config.RacePoints); implies Race.
+	RacePoints bool
+	Scenario   vs.Scenario
 }
 
 // Options of a check.
@@ -50,6 +52,19 @@ type Options struct {
 	// exhaustive for race-free executions only, and an unordered pair of
 	// accesses inside the code under test is exactly what it would miss.
 	LibRace bool
+	// RacePoints switches race-directed preemption on for every instance: the
+	// happens-before oracle runs in every execution, and as soon as two
+	// accesses inside library code are found unordered the instance is explored
+	// again from bound 0 with those source sites as additional scheduling
+	// points, so that the interleavings around them are decided by the
+	// property's own oracle.
+	RacePoints bool
+}
+
+type taskMsg struct {
+	Idx   int      `json:"idx"`
+	Bound int      `json:"bound"`
+	Racy  []string `json:"racy,omitempty"`
 }
 
 type result struct {
@@ -67,6 +82,11 @@ func Main(o Options) {
 	bound := flag.Int("bound", -1, "override deviation bound")
 	flag.Parse()
 	insts, budget := o.Build(*tier)
+	if o.RacePoints {
+		for i := range insts {
+			insts[i].Race, insts[i].RacePoints = true, true
+		}
+	}
 	if o.LibRace {
 		for i := range insts {
 			insts[i].Race = true
@@ -125,19 +145,22 @@ func Main(o Options) {
 }
 
 func cfgOf(in Instance, dl time.Time) vs.Config {
-	return vs.Config{Name: in.Name, Bound: in.Bound, Horizon: in.Horizon, Race: in.Race, Deadline: dl, NoSpin: in.NoSpin, NoFreeze: in.NoFreeze}
+	return vs.Config{Name: in.Name, Bound: in.Bound, Horizon: in.Horizon, Race: in.Race || in.RacePoints, Deadline: dl, NoSpin: in.NoSpin, NoFreeze: in.NoFreeze, RacePoints: in.RacePoints}
 }
 
 func runWorker(insts []Instance, dl time.Time) {
 	runtime.GOMAXPROCS(1)
 	sc := bufio.NewScanner(os.Stdin)
 	out := json.NewEncoder(os.Stdout)
+	sc.Buffer(make([]byte, 1<<20), 1<<24)
 	for sc.Scan() {
-		var idx, b int
-		if _, err := fmt.Sscan(sc.Text(), &idx, &b); err != nil || idx < 0 || idx >= len(insts) {
+		var t taskMsg
+		if err := json.Unmarshal(sc.Bytes(), &t); err != nil || t.Idx < 0 || t.Idx >= len(insts) {
 			continue
 		}
+		idx, b := t.Idx, t.Bound
 		cfg := cfgOf(insts[idx], dl)
+		cfg.RacySites = t.Racy
 		cfg.MinBound, cfg.Bound = b, b
 		st := vs.Explore(cfg, insts[idx].Scenario)
 		_ = out.Encode(result{Index: idx, Stats: st})
@@ -191,11 +214,20 @@ func runParent(insts []Instance, tier, only string, bound int, dl time.Time) ([]
 			maxBound = in.Bound
 		}
 	}
-	for b := 0; b <= maxBound && infra == ""; b++ {
+	// racy[i]: library sites of instance i that are scheduling points (race-
+	// directed preemption); restarts[i] counts how often the set grew, which
+	// sends the instance back to bound 0. stalled[i]: a deadline cut it.
+	racy := make([][]string, len(insts))
+	restarts := make([]int, len(insts))
+	stalled := make([]bool, len(insts))
+	_ = maxBound
+	for infra == "" {
+		// every instance advances by one bound per round, so a deadline cuts all
+		// instances at about the same depth (restarted ones lag behind)
 		var tasks []task
 		for i, in := range insts {
-			if in.Bound >= b && len(stats[i].Failures) == 0 && stats[i].BoundCompleted == b-1 {
-				tasks = append(tasks, task{i, b})
+			if !stalled[i] && len(stats[i].Failures) == 0 && stats[i].BoundCompleted < in.Bound {
+				tasks = append(tasks, task{i, stats[i].BoundCompleted + 1})
 			}
 		}
 		if len(tasks) == 0 {
@@ -213,7 +245,10 @@ func runParent(insts []Instance, tier, only string, bound int, dl time.Time) ([]
 			go func() {
 				defer wg.Done()
 				for t := range work {
-					fmt.Fprintf(w.in, "%d %d\n", t.idx, t.bound)
+					mu.Lock()
+					msg, _ := json.Marshal(taskMsg{Idx: t.idx, Bound: t.bound, Racy: racy[t.idx]})
+					mu.Unlock()
+					fmt.Fprintf(w.in, "%s\n", msg)
 					line, err := w.rd.ReadBytes('\n')
 					var res result
 					if err != nil || json.Unmarshal(line, &res) != nil {
@@ -225,6 +260,20 @@ func runParent(insts []Instance, tier, only string, bound int, dl time.Time) ([]
 					mu.Lock()
 					st := &stats[res.Index]
 					r := res.Stats
+					if len(r.NewRacy) > 0 && r.Infra == "" {
+						// new unordered library accesses: they become scheduling points and
+						// the instance starts over (what was explored without them is dropped)
+						racy[res.Index] = append(racy[res.Index], r.NewRacy...)
+						sort.Strings(racy[res.Index])
+						restarts[res.Index]++
+						if restarts[res.Index] > 12 {
+							infra = fmt.Sprintf("%s: the set of racy sites did not stabilise after 12 restarts", insts[res.Index].Name)
+						}
+						*st = vs.Stats{Instance: insts[res.Index].Name, Outcomes: map[string]int{}, BoundCompleted: -1, Exhaustive: true}
+						mu.Unlock()
+						continue
+					}
+					st.RacySites = len(racy[res.Index])
 					st.Executions += r.Executions
 					st.Steps += r.Steps
 					if r.States > st.States {
@@ -241,6 +290,8 @@ func runParent(insts []Instance, tier, only string, bound int, dl time.Time) ([]
 					st.Failures = append(st.Failures, r.Failures...)
 					if r.BoundCompleted == t.bound {
 						st.BoundCompleted = t.bound
+					} else if len(r.Failures) == 0 {
+						stalled[res.Index] = true
 					}
 					if r.Infra != "" {
 						infra = r.Instance + ": " + r.Infra
@@ -310,6 +361,16 @@ func merge(r *rep.Report, o Options, insts []Instance, stats []vs.Stats) {
 	r.Set("max_bound_completed_all_instances", minBound)
 	r.Set("outcomes", outcomes)
 	r.Set("spin_cuts", spins)
+	racySites, racyInst := 0, 0
+	for _, st := range stats {
+		if st.RacySites > 0 {
+			racySites += st.RacySites
+			racyInst++
+		}
+	}
+	if o.RacePoints {
+		r.Set("race_directed_points", map[string]int{"instances_with_racy_library_sites": racyInst, "sites_made_scheduling_points": racySites})
+	}
 	if prev, ok := r.Coverage["exhaustive"].(bool); ok {
 		exhaustive = exhaustive && prev
 	}
@@ -352,6 +413,7 @@ func doReplay(insts []Instance, file string) int {
 		}
 		cfg := cfgOf(in, time.Time{})
 		cfg.NoSpin = true
+		cfg.RacySites = f.RacySites
 		trace, end, tag, detail := vs.Replay(cfg, in.Scenario, f.Choices)
 		for i, s := range trace {
 			fmt.Printf("%4d %s\n", i, s)
